@@ -613,6 +613,22 @@ class ConstraintMachine(LoggedMachine):
         if dup:
             self.do({"op": "remove", "k": 0, "unknown": False, "name": dup[0]})
 
+    @precondition(lambda self: len(self.state.entries) == 0 and len(self.state.stations) >= 1)
+    @rule(data=st.data(), limit=st.sampled_from([10, 32, 80]), new_limit=st.sampled_from([7.0, 33.0]))
+    def whole_numbers_then_fractions(self, data, limit, new_limit):
+        """A first constraint written with whole numbers only (a plain list of stations, an integer
+        limit), then an update of that very constraint - the newest row, keeping its name - to
+        fractional coefficients."""
+        ids = self.ids()
+        members = data.draw(st.lists(st.sampled_from(ids), min_size=1, max_size=len(ids), unique=True))
+        self.state.counter += 1
+        name = "con-%d" % self.state.counter
+        self.do({"op": "add", "name": name, "limit": limit, "expr": {"leaf": "list", "ids": members}})
+        frac = {"leaf": "dict", "order": members, "coeffs": {m: data.draw(st.sampled_from([0.5, 1.5, -0.25, 0.125, 2.5])) for m in members}}
+        names = sorted(set(self.state.model))
+        if name in names:
+            self.do({"op": "update", "k": names.index(name), "limit": new_limit, "new_name": None, "unknown": False, "expr": frac})
+
     @precondition(lambda self: self.state.json < 2 and len(self.state.stations) >= 1)
     @rule(via=st.sampled_from(["string", "string", "path", "buffer"]))
     def json_roundtrip(self, via):
